@@ -107,6 +107,12 @@ fn main() {
         }
         "C02" => {
             umverif::c02::run(&mut rep);
+            let n = std::env::var("VERIF_REAL_N").ok().and_then(|v| v.parse().ok()).unwrap_or(if thorough { 400 } else { 16 });
+            umverif::real_leg::run(&mut rep, "C02", n, 8);
+            rep.floor("real_scenarios", if thorough { 200 } else { 8 });
+            rep.floor("real_routing_probes", if thorough { 5000 } else { 200 });
+            rep.floor("real_http_cluster_views_compared", if thorough { 300 } else { 12 });
+            rep.assumptions.push("leg B (real_* counters) runs the broker's real HTTP server, the coordinator's real HTTP clients and components with the production pooled TCP client, and real ServerProxyService listeners on loopback addresses; only the proxy -> Redis hop stays in memory. Scenarios of leg B that do not converge are judged by C07, not here".to_string());
             rep.finish()
         }
         "C03" => {
@@ -119,6 +125,12 @@ fn main() {
         }
         "C07" => {
             umverif::c07::run(&mut rep);
+            let n = std::env::var("VERIF_REAL_N").ok().and_then(|v| v.parse().ok()).unwrap_or(if thorough { 400 } else { 16 });
+            umverif::real_leg::run(&mut rep, "C07", n, 8);
+            rep.floor("real_scenarios", if thorough { 200 } else { 8 });
+            rep.floor("real_convergences", if thorough { 400 } else { 16 });
+            rep.floor("real_epoch_observations", if thorough { 3000 } else { 150 });
+            rep.assumptions.push("leg B (real_* counters) has no injected message faults: it checks bounded convergence, epoch monotonicity and data survival through the production HTTP / TCP clients and servers (broker run_server, HttpMetaBroker, HttpMetaManipulationBroker, PooledRedisClientFactory, ServerProxyService); faults are injected in leg A (simulated network)".to_string());
             rep.finish()
         }
         "C08" => {
